@@ -137,6 +137,10 @@ class C04(Property):
             if ctx.out_of_time():
                 ctx.extra["incomplete"] = True
                 break
+            if i >= 25 and ctx.tier == "quick" and ctx.time_left() < 0.45 * self.quick_budget_s:
+                # heavily loaded machine: the plan is "up to n workflows", at least 25 (the corpus included)
+                ctx.notes.append(f"soft time limit: stopped after {i} of {n} planned workflows")
+                break
             if hangs >= 4:
                 ctx.notes.append("stopped generating after 4 hanging runs (each costs the whole watchdog time)")
                 break
